@@ -469,9 +469,8 @@ def subst_records(out: hlib.RecWriter, rng: random.Random, thorough: bool) -> No
         fx = EntityFixup([FixupValue(k, v, i + 1) for i, (k, v) in enumerate(table)])
         res = fx.substitute(text, default)
         tab = [[cp(k), cp(v.value)] for k, v in fx._fixup.items()]
-        ident = any(text[j] == '$' and j + 1 < len(text) and (text[j + 1].isalpha() or text[j + 1] == '_') for j in range(len(text)))
         out.write({'k': 'subst', 'tab': tab, 'text': cp(text), 'def': cp(default), 'res': cp(res),
-                   'sig': {'kind': 'subst', 'action': 'substitute', 'src': src, 'table_empty': not tab, 'dollar_ident': ident},
+                   'sig': {'kind': 'subst', 'action': 'substitute', 'src': src, 'empty_table_var': not tab},
                    'hist': {'gen': 'subst', 'table': table, 'text': text, 'default': default}})
     # exhaustive: all texts up to length 4 (5 thorough) over {$, a, b, A, 1, !} against a family of tables
     alpha = '$abA1!'
@@ -1041,7 +1040,7 @@ def regenerate(hist: dict, out: hlib.RecWriter) -> None:
         res = fx.substitute(hist['text'], hist['default'])
         out.write({'k': 'subst', 'tab': [[cp(k), cp(v.value)] for k, v in fx._fixup.items()], 'text': cp(hist['text']),
                    'def': cp(hist['default']), 'res': cp(res),
-                   'sig': {'kind': 'subst', 'action': 'substitute', 'src': 'replay', 'table_empty': not hist['table']}, 'hist': hist})
+                   'sig': {'kind': 'subst', 'action': 'substitute', 'src': 'replay', 'empty_table_var': not hist['table']}, 'hist': hist})
     elif g == 'name':
         inst = Instance(hist['iname'], 'f.vmf', Vec(), Matrix(), FixupStyle(hist['style']))
         out.write({'k': 'name', 'style': hist['style'], 'iname': cp(hist['iname']), 'n': cp(hist['n']),
